@@ -66,10 +66,11 @@ inline bool imm_fits_ext(int64_t v, int bits, const std::string& sign, int opsiz
   return ok_s || ok_u;
 }
 
-// Does DB form G admit the requested operands / decorations?
-inline bool admits(const xdb::Form& G, const XInst& x) {
+// Does DB form G admit the requested operands / decorations? `with_implicit`: the caller passed the implicit operands explicitly as well
+// (AsmJit's API accepts both, e.g. imul(ax, r8) or cmpxchg(mem, reg, eax)).
+inline bool admits_impl(const xdb::Form& G, const XInst& x, bool with_implicit) {
   size_t n = 0;
-  for (const xdb::Op& d : G.ops) if (is_explicit(d)) n++;
+  for (const xdb::Op& d : G.ops) if (with_implicit || is_explicit(d)) n++;
   if (n != x.ops.size()) return false;
   const int opsize = form_opsize(G);
   if (x.k && !G.kmask) return false;
@@ -78,7 +79,7 @@ inline bool admits(const xdb::Form& G, const XInst& x) {
   if (x.sae && !(G.sae || G.er)) return false;
   size_t j = 0;
   for (const xdb::Op& d : G.ops) {
-    if (!is_explicit(d)) continue;
+    if (!with_implicit && !is_explicit(d)) continue;
     const Opnd& o = x.ops[j++];
     if (o.kind == Opnd::kReg) {
       if (!d.is_reg()) return false;
@@ -108,6 +109,8 @@ inline bool admits(const xdb::Form& G, const XInst& x) {
   }
   return true;
 }
+inline bool admits(const xdb::Form& G, const XInst& x) { return admits_impl(G, x, false); }
+inline bool admits_any(const xdb::Form& G, const XInst& x) { return admits_impl(G, x, false) || (G.hasImplicit && admits_impl(G, x, true)); }
 
 struct Cursor {
   const uint8_t* p; size_t n, pos = 0;
